@@ -243,6 +243,12 @@ def _request_case(case, out):
         check_encoding(out, req.params)
         if not out.violations:
             _send_path(out, req, case)
+        if not out.violations and case.get("also_plain"):
+            cfg2 = Config(phone=phone, cc=cc, id=cfg.id, mcc=case["mcc"], mnc=case["mnc"], sim_mcc=case["mcc"], sim_mnc=case["mnc"],
+                          client_static_keypair=cfg.client_static_keypair)
+            req2 = (WACodeRequest(case.get("method", "sms"), cfg2) if which == 0 else WAExistsRequest(cfg2) if which == 1
+                    else WARegRequest(cfg2, "123456"))
+            _send_path(out, req2, case, encrypt=False)
     finally:
         envkit.drop_home(home)
     return out
@@ -268,7 +274,7 @@ class _FakeConn(object):
         return _FakeResponse()
 
 
-def _send_path(out, req, case):
+def _send_path(out, req, case, encrypt=True):
     """the request as it leaves through WARequest.send(): one GET whose query is ENC=<blob>; the blob, opened with the private key
     that belongs to the public key the request class encrypts for (substituted by the harness), holds exactly the parameters of
     the request, in order; host, path and User-Agent are those of the request"""
@@ -286,13 +292,13 @@ def _send_path(out, req, case):
     W.httplib.HTTPConnection = _FakeConn
     try:
         try:
-            req.send(encrypt=True)
+            req.send(encrypt=encrypt)
         except Exception as e:
             out.fail("request", "request:send_raises:%s" % type(e).__name__, {"error": repr(e)[:300]})
             return
     finally:
         W.WARequest.ENC_PUBKEY, W.httplib.HTTPSConnection, W.httplib.HTTPConnection = saved
-    out.label("request_sent")
+    out.label("request_sent" if encrypt else "request_sent_unencrypted")
     # a code request for an account that already has an id asks /v2/exist first (answered "fail" here, so the code request follows)
     if len(_FakeConn.calls) not in (1, 2):
         out.fail("request", "request:http_requests_%d" % len(_FakeConn.calls), {})
@@ -310,6 +316,15 @@ def _send_path(out, req, case):
         return
     query = path[len(exp_path) + 1:]
     pairs = query.split("&")
+    if not encrypt:
+        got = []
+        for part in pairs if query else []:
+            n, _, v = part.partition("=")
+            got.append((n, urllib.parse.unquote_to_bytes(v)))
+        exp = [(n, v if isinstance(v, bytes) else str(v).encode("utf-8")) for n, v in params_sent]
+        if got != exp:
+            out.fail("request", "request:sent_parameters_differ:unencrypted", {"got": [g[0] for g in got], "expected": [e[0] for e in exp]})
+        return
     if len(pairs) != 1 or not pairs[0].startswith("ENC="):
         out.fail("request", "request:query_is_not_one_enc_parameter", {"names": [p.split("=")[0] for p in pairs][:6]})
         return
@@ -356,11 +371,11 @@ def plan(tier):
     params = st.builds(lambda ps, r: {"sub": "params", "params": [[n, v] for n, v in ps], "recipient": r.hex()},
                        st.lists(st.tuples(_name, _value), min_size=0, max_size=12),
                        st.binary(min_size=32, max_size=32))
-    request = st.builds(lambda cc, local, mcc, mnc, which, idb: {"sub": "request", "cc": cc, "local": local, "mcc": mcc,
-                                                                "mnc": mnc, "which": which, "id": idb},
+    request = st.builds(lambda cc, local, mcc, mnc, which, idb, plain: {"sub": "request", "cc": cc, "local": local, "mcc": mcc,
+                                                                       "mnc": mnc, "which": which, "id": idb, "also_plain": plain},
                         st.text(alphabet="123456789", min_size=1, max_size=3), st.text(alphabet="0123456789", min_size=4, max_size=12),
                         st.text(alphabet="0123456789", min_size=1, max_size=3), st.text(alphabet="0123456789", min_size=1, max_size=3),
-                        st.integers(0, 2), st.one_of(st.none(), st.binary(min_size=20, max_size=20).map(lambda b: b.hex())))
+                        st.integers(0, 2), st.one_of(st.none(), st.binary(min_size=20, max_size=20).map(lambda b: b.hex())), st.booleans())
     return {
         "shards": 16,
         "enumerations": [],
